@@ -41,7 +41,7 @@ type Profile struct {
 
 var HostileKeys = []string{"a", "b", "c", "d", "", "a/b", "m~n", "~", "/", "~1", "~0", "0", "1", "-1", "01", "x<y", "k&v", " ", "é", "😀", `q"r`, `b\s`, "\n", "-"}
 var PlainKeys = []string{"a", "b", "c", "d", "e", "f", "k", "0", "1", "zz"}
-var MergeKeys = []string{"a", "b", "c", "d", "x<y", "", "a~1b", "~0"}
+var MergeKeys = []string{"a", "b", "c", "d", "x<y", "", "a~1b", "~0", `b\s`, `q"r`}
 
 var HostileStrings = []string{"", "s", "x<y>&z", "\xe2\x80\xa8\xe2\x80\xa9", "é😀", `q"r\`, "\b\f\n\r\t\x01", "A", "/", "~", "null", "0", "a b", "\u007f", "𝄞"}
 var PlainStrings = []string{"", "s", "A", "hello world", "null", "0", "é", "😀", "a b c"}
@@ -383,7 +383,7 @@ func Pointers(v *jr.Value) (res, miss []string) {
 			for i, k := range x.Keys {
 				walk(x.Vals[i], prefix+"/"+jr.EncTok(k))
 			}
-			miss = append(miss, prefix+"/zz", prefix+"/0", prefix+"/-", prefix+"/n~0w", prefix+"/n~1w", prefix+"/~01", prefix+"/~10")
+			miss = append(miss, prefix+"/zz", prefix+"/0", prefix+"/-", prefix+"/n~0w", prefix+"/n~1w", prefix+"/~01", prefix+"/~10", prefix+"/50%", prefix+"/a%sb%d")
 		case jr.Arr:
 			n := len(x.A)
 			for i, e := range x.A {
